@@ -44,7 +44,10 @@ fn rel_path(rng: &mut Rng) -> String {
     };
     let mut p = String::new();
     for _ in 0..depth {
-        p += *rng.pick(&["d0", "d1", "Dir_2", "d.3", "sqpack", "d-x"]);
+        // includes names that are proper prefixes of a sibling whose next character sorts before
+        // '/' ("d" beside "d.3" / "d-x", "d0" beside "d0.bak" / "d0-old"): path order and string
+        // order of the relative paths then differ
+        p += *rng.pick(&["d0", "d1", "Dir_2", "d.3", "sqpack", "d-x", "d", "d0.bak", "d0-old", "d"]);
         p.push('/');
     }
     p += *rng.pick(&["f0", "f1.bin", "F2.TXT", "f_3", "f-4.dat", "x.5", "f6", "f7.ver"]);
